@@ -346,6 +346,7 @@ func checkC02(c *Ctx) {
 	c02SameType(c)
 	c02ErrCarry(c)
 	c02AnyMembers(c)
+	c02HandlerErrorConverted(c, "R-handler-error-converted")
 	// listings are built per request: a filter working in place must not reach the registry's own slice (shared with C13)
 	c13Filters(c)
 	// a frame into which another writer's bytes were interleaved is not what the handler returned: the stream-integrity
@@ -667,4 +668,57 @@ func c02AnyMembers(c *Ctx) {
 		})
 	}
 	c.R.Min("R-any-member", 1)
+}
+
+// ---------------------------------------------------------------- R-handler-error-converted
+// A failing user handler reaches the caller as a JSON-RPC error carrying the handler's message on every transport
+// only because the function that invokes the handler converts the error itself (newJSONRPCErrorResponse(..., err.Error())).
+// If it returns the Go error instead, each transport makes something else of it (stdio: "Internal error" with the text
+// moved to data), and the caller no longer receives the message.
+func c02HandlerErrorConverted(c *Ctx, rule string) {
+	n := 0
+	for _, fn := range c.P.LibFns {
+		var hcalls []*ssa.Call
+		ir.EachInstr(fn, func(_ *ssa.BasicBlock, _ int, in ssa.Instruction) {
+			call, ok := in.(*ssa.Call)
+			if !ok {
+				return
+			}
+			switch userCallbackCall(c, call) {
+			case "toolHandler", "promptHandler", "resourceHandler", "resourcesHandler", "resourceTemplateHandler":
+				hcalls = append(hcalls, call)
+			}
+		})
+		if len(hcalls) == 0 || !returnsError(fn) {
+			continue
+		}
+		// only the functions that answer a request (adapters between handler shapes hand the error on unchanged)
+		takesReq := false
+		for _, p := range fn.Params {
+			if ir.TypeStr(p.Type()) == "*mcp.JSONRPCRequest" {
+				takesReq = true
+			}
+		}
+		if !takesReq {
+			continue
+		}
+		n++
+		raw := false
+		ir.EachInstr(fn, func(blk *ssa.BasicBlock, _ int, in ssa.Instruction) {
+			r, ok := in.(*ssa.Return)
+			if !ok || blk == fn.Recover {
+				return
+			}
+			rs := ir.Results(r)
+			last := rs[len(rs)-1]
+			for _, hc := range hcalls {
+				if valueDependsOn(last, hc, 0) {
+					raw = true
+				}
+			}
+		})
+		c.R.Check(!raw, rule, "handler error in "+fname(fn), c.Pos(hcalls[0].Pos()), "converted to a JSON-RPC error by the function that invoked the handler",
+			sprintf("%s returns the user handler's error as a Go error instead of converting it into a JSON-RPC error with the handler's message: the transports treat it differently (stdio answers \"Internal error\"), and the message does not reach the caller", fname(fn)))
+	}
+	c.R.Min(rule, 3)
 }
